@@ -38,8 +38,7 @@ theorem schema_attrs_plain : Gen.Schema.types.all (fun t => t.fields.all fun f =
 theorem schema_innerxml : (Gen.Schema.types.filter fun t => t.fields.any fun f => f.mode = "innerxml").map (·.tname) =
     ["saml.BaseIDAbstractType"] := by decide +kernel
 
-theorem C18_source_current : FactsUtil.sameHashes ["xml.Marshal", "xml.WriteXMLMarshalled", "xml.Write", "xml.DeflateAndBase64",
-    "xml.DecodeAuthNRequest", "xml.DecodeAttributeQuery", "xml.DecodeLogoutRequest"] = true := by decide
+theorem C18_source_current : FactsUtil.sameHashes ["xml.Marshal", "xml.WriteXMLMarshalled", "xml.Write", "xml.DeflateAndBase64"] = true := by decide
 
 /-! ### (1) one well-formed document, (2) that decodes to the values put in -/
 
